@@ -684,7 +684,7 @@ func checkAddrCacheAfterLastWrite(c *Ctx, rule string) {
 					continue
 				}
 				tn, f, _, okf := fieldOf(stripConv(mu.Map))
-				if !okf || tn != "ScopedKeyManager" || f != "addrs" {
+				if !okf || !(tn == "ScopedKeyManager" && f == "addrs" || tn == "Manager" && f == "scopedManagers") {
 					continue
 				}
 				n++
@@ -695,10 +695,10 @@ func checkAddrCacheAfterLastWrite(c *Ctx, rule string) {
 				hits := q.From(mu)
 				detail := ""
 				if len(hits) > 0 {
-					detail = fmt.Sprintf("%s caches the address object and then performs another fallible database write (%s at %s): if that write fails the transaction is rolled back but the cache keeps an address the database does not know",
+					detail = fmt.Sprintf("%s registers the object in memory ("+tn+"."+f+") and then performs another fallible database write (%s at %s): if that write fails the transaction is rolled back but memory keeps an entry the database does not know",
 						fnName(fn), ed.siteName(hits[0].Ins.(*ssa.Call)), p.Pos(hits[0].Ins.Pos()))
 				}
-				c.Check(rule, "address-cached-after-last-write:"+fnName(fn), mu.Pos(), len(hits) == 0, detail)
+				c.Check(rule, map[string]string{"addrs": "address-cached-after-last-write:", "scopedManagers": "scope-registered-after-last-write:"}[f]+fnName(fn), mu.Pos(), len(hits) == 0, detail)
 			}
 		}
 	}
@@ -1041,6 +1041,40 @@ func checkDerivationPathLiterals(c *Ctx, rule string) {
 			fmt.Sprintf("%s builds an address's DerivationPath without %v, which the sibling constructions fill in: the running manager and a restarted one report different derivation metadata for the same address", fnName(l.fn), missing))
 	}
 	c.Floor(rule, "DerivationPath constructions for account addresses", n, 4)
+	// ... and from the same source: the reported account is the child index of the account KEY (for an imported xpub it
+	// differs from the wallet-internal account number the row is stored under)
+	nAcct := 0
+	for _, fn := range p.FuncsIn("waddrmgr") {
+		for _, b := range fn.Blocks {
+			for _, ins := range b.Instrs {
+				st, ok := ins.(*ssa.Store)
+				if !ok {
+					continue
+				}
+				fa, ok := st.Addr.(*ssa.FieldAddr)
+				if !ok {
+					continue
+				}
+				tn, f := fieldAddrName(fa)
+				if tn != "DerivationPath" || f != "Account" {
+					continue
+				}
+				if _, isAlloc := fa.X.(*ssa.Alloc); !isAlloc {
+					continue
+				}
+				nAcct++
+				okSrc := false
+				for _, o := range (&Slicer{P: p, ThroughBinOp: true}).Origins(st.Val) {
+					if call, ok := o.(*ssa.Call); ok && calleeShort(&call.Call) == "ChildIndex" {
+						okSrc = true
+					}
+				}
+				c.Check(rule, "derivation-path-account-is-key-child-index:"+outermost(fn).Name(), st.Pos(), okSrc,
+					fnName(fn)+" fills DerivationPath.Account from something other than the account key's ChildIndex() (e.g. the internal account number): for an imported account key the reported path names the wrong account, and differs from what the issuing code reported for the same address")
+			}
+		}
+	}
+	c.Floor(rule, "DerivationPath.Account assignments", nAcct, 4)
 }
 
 // checkMirrorStoresOnOwnBranch: the issuers keep per-branch state (next index and last address, external and
@@ -1181,4 +1215,385 @@ func checkNoOverRejectingLengthGuard(c *Ctx, rule string) {
 		c.Check(rule, "length-guard-accepts-minimal-ciphertext:"+fnName(fn), fn.Pos(), okAll, detail)
 	}
 	c.Floor(rule, "decryption entry points", n, 3)
+}
+
+// checkCacheHitReturnsCopy: the derived-private-key cache hands out a COPY of the cached key: callers wipe the
+// key they were given after signing (key.Zero()), which must not wipe the cache entry — or every later request
+// for that path returns the all-zero scalar while the wallet is unlocked.
+func checkCacheHitReturnsCopy(c *Ctx, rule string) {
+	p := c.P
+	fn := p.Func("waddrmgr", "ScopedKeyManager", "DeriveFromKeyPathCache")
+	if fn == nil {
+		c.Unresolved(rule, "ScopedKeyManager.DeriveFromKeyPathCache")
+		return
+	}
+	n := 0
+	for _, b := range fn.Blocks {
+		for _, ins := range b.Instrs {
+			// results are spilled to named slots by the deferred unlock: look at what is stored into result #0
+			var v ssa.Value
+			switch x := ins.(type) {
+			case *ssa.Return:
+				if len(x.Results) == 0 {
+					continue
+				}
+				if ld, ok := x.Results[0].(*ssa.UnOp); ok {
+					if a, ok := ld.X.(*ssa.Alloc); ok && resultSlot(a) {
+						continue // handled at the stores
+					}
+				}
+				v = x.Results[0]
+			case *ssa.Store:
+				a, ok := x.Addr.(*ssa.Alloc)
+				if !ok || !resultSlot(a) || isErrorType(x.Val.Type()) {
+					continue
+				}
+				v = x.Val
+			default:
+				continue
+			}
+			if isNilConst(v) {
+				continue
+			}
+			r := ins
+			n++
+			v = stripConv(v)
+			alias := false
+			// an address computed inside a value obtained from the cache (field/element of the cached entry)
+			cur := v
+			for depth := 0; depth < 4; depth++ {
+				switch x := cur.(type) {
+				case *ssa.FieldAddr:
+					cur = x.X
+					for _, o := range (&Slicer{P: p, KeepExtract: true}).Origins(cur) {
+						if ex, ok := o.(*ssa.Extract); ok {
+							if call, ok := ex.Tuple.(*ssa.Call); ok && calleeShort(&call.Call) == "Get" {
+								alias = true
+							}
+						}
+					}
+					continue
+				case *ssa.IndexAddr:
+					cur = x.X
+					continue
+				}
+				break
+			}
+			c.Check(rule, "cache-hit-returns-a-copy", r.Pos(), !alias,
+				"DeriveFromKeyPathCache returns a pointer into the cached entry instead of a copy: a caller that wipes the key it received wipes the cache, and later requests for the same path get the all-zero key")
+		}
+	}
+	c.Floor(rule, "key-returning exits of DeriveFromKeyPathCache", n, 2)
+}
+
+// checkZeroMethodsWipeInPlace: the wipe methods of the key types clear the bytes where they are: every path
+// of a Zero method passes a zeroing primitive (internal/zero, or the Zero of a component it owns) applied to
+// its own storage. Replacing the buffer by a fresh one (`sk.Key = &CryptoKey{}`) reads as zero through the
+// holder but leaves the old clear-text key in memory.
+func checkZeroMethodsWipeInPlace(c *Ctx, rule string) {
+	p := c.P
+	n := 0
+	for _, spec := range [][3]string{{"snacl", "CryptoKey", "Zero"}, {"snacl", "SecretKey", "Zero"}, {"waddrmgr", "cryptoKey", "Zero"}} {
+		fn := p.Func(spec[0], spec[1], spec[2])
+		if fn == nil {
+			continue
+		}
+		n++
+		wipes := func(i ssa.Instruction) bool {
+			call, ok := i.(*ssa.Call)
+			if !ok {
+				return false
+			}
+			g := call.Call.StaticCallee()
+			if g == nil {
+				return false
+			}
+			if g.Pkg != nil && strings.HasSuffix(g.Pkg.Pkg.Path(), "internal/zero") {
+				return true
+			}
+			return g.Name() == "Zero" && g != fn
+		}
+		bad := false
+		q := &PathQuery{Fn: fn, Barrier: wipes, Target: func(i ssa.Instruction, _ *ssa.BasicBlock) bool { _, ok := i.(*ssa.Return); return ok }}
+		if len(q.From(nil)) > 0 {
+			bad = true
+		}
+		c.Check(rule, "zero-method-wipes-in-place:"+spec[1], fn.Pos(), !bad,
+			fmt.Sprintf("(%s.%s).Zero can return without having zeroed its key bytes in place (e.g. it swaps in a fresh key object): the old clear-text key stays in memory after Lock", spec[0], spec[1]))
+		// and it must not replace the storage it is supposed to wipe
+		for _, b := range fn.Blocks {
+			for _, ins := range b.Instrs {
+				if st, ok := ins.(*ssa.Store); ok {
+					if fa, ok := st.Addr.(*ssa.FieldAddr); ok && len(fn.Params) > 0 && fa.X == ssa.Value(fn.Params[0]) {
+						if _, isPtr := st.Val.Type().Underlying().(*types.Pointer); isPtr {
+							c.Check(rule, "zero-method-keeps-its-buffer:"+spec[1], st.Pos(), false,
+								fmt.Sprintf("(%s.%s).Zero replaces the pointer to its key buffer: the bytes of the old buffer are not wiped", spec[0], spec[1]))
+						}
+					}
+				}
+			}
+		}
+	}
+	c.Floor(rule, "Zero methods of key types", n, 3)
+}
+
+// checkNoKeyMaterialInNames: account names, labels and other clear-text columns are formatted strings; no key
+// object (extended key, EC key) may be formatted into a string that is then used for anything but an error or a
+// log message — `fmt.Sprintf("act:%v", pubKey)` puts the base58 key into the unencrypted name column and
+// both name indexes.
+func checkNoKeyMaterialInNames(c *Ctx, rule string) {
+	p := c.P
+	isKeyType := func(t types.Type) bool {
+		s := t.String()
+		return strings.HasSuffix(s, "hdkeychain.ExtendedKey") || strings.HasSuffix(s, "btcec/v2.PrivateKey") || strings.HasSuffix(s, "btcec/v2.PublicKey") || strings.HasSuffix(s, "snacl.CryptoKey") || strings.HasSuffix(s, "snacl.SecretKey")
+	}
+	n := 0
+	for _, fn := range p.FuncsIn("waddrmgr") {
+		for _, ci := range callsOf(fn) {
+			call, ok := ci.(*ssa.Call)
+			if !ok {
+				continue
+			}
+			g := call.Call.StaticCallee()
+			if g == nil || g.Pkg == nil || g.Pkg.Pkg.Path() != "fmt" || !strings.HasPrefix(g.Name(), "Sprint") {
+				continue
+			}
+			n++
+			// variadic args: slice of interfaces built from MakeInterface values
+			keyArg := ""
+			for _, o := range (&Slicer{P: p, ThroughFieldsOfAllocs: true}).Origins(call.Call.Args[len(call.Call.Args)-1]) {
+				if mi, ok := o.(*ssa.MakeInterface); ok && isKeyType(mi.X.Type()) {
+					keyArg = mi.X.Type().String()
+				}
+			}
+			if keyArg == "" {
+				// look at the varargs array stores directly
+				if sl, ok := call.Call.Args[len(call.Call.Args)-1].(*ssa.Slice); ok {
+					if al, ok := sl.X.(*ssa.Alloc); ok {
+						for _, u := range usesOf(al) {
+							if ia, ok := u.(*ssa.IndexAddr); ok {
+								for _, u2 := range usesOf(ia) {
+									if st, ok := u2.(*ssa.Store); ok {
+										if mi, ok := st.Val.(*ssa.MakeInterface); ok && isKeyType(mi.X.Type()) {
+											keyArg = mi.X.Type().String()
+										}
+									}
+								}
+							}
+						}
+					}
+				}
+			}
+			if keyArg == "" {
+				continue
+			}
+			// the formatted string may only feed error constructors / loggers
+			okUse := true
+			for _, u := range usesOf(call) {
+				uc, isCall := u.(*ssa.Call)
+				if !isCall {
+					okUse = false
+					continue
+				}
+				nm := calleeShort(&uc.Call)
+				if nm != "managerError" && nm != "New" && nm != "Errorf" && !isLoggerCall(&uc.Call) {
+					okUse = false
+				}
+			}
+			c.Check(rule, "no-key-formatted-into-stored-text:"+fnName(fn), call.Pos(), okUse,
+				fmt.Sprintf("%s formats a %s into a string that is used as data (not as an error/log message): the key's text form ends up in a clear-text column of the database (account name, name index)", fnName(fn), keyArg))
+		}
+	}
+	c.Floor(rule, "fmt.Sprint* calls in waddrmgr", n, 20)
+}
+
+// checkStartBlockDecision: an import moves the manager's start block back when the imported item was first
+// seen before it. Both the decision to write the new start block to the database and the decision to update it
+// in memory compare the import's height with the START block — not with the synced-to block (a mix makes disk
+// and memory decide differently, and a restart then rescans from a different block than the running manager).
+func checkStartBlockDecision(c *Ctx, rule string) {
+	p := c.P
+	n := 0
+	for _, fnn := range []string{"importPublicKey", "importScriptAddress"} {
+		fn := p.Func("waddrmgr", "ScopedKeyManager", fnn)
+		if fn == nil {
+			c.Unresolved(rule, "ScopedKeyManager."+fnn)
+			continue
+		}
+		for _, f := range Closures(fn) {
+			for _, b := range f.Blocks {
+				for _, ins := range b.Instrs {
+					bo, ok := ins.(*ssa.BinOp)
+					if !ok || (bo.Op != token.LSS && bo.Op != token.GTR && bo.Op != token.LEQ && bo.Op != token.GEQ) {
+						continue
+					}
+					// a Height field reached through the manager's syncState
+					for _, side := range []ssa.Value{bo.X, bo.Y} {
+						ld, ok := stripConv(side).(*ssa.UnOp)
+						if !ok || ld.Op != token.MUL {
+							continue
+						}
+						fa, ok := ld.X.(*ssa.FieldAddr)
+						if !ok {
+							continue
+						}
+						if _, fld := fieldAddrName(fa); fld != "Height" {
+							continue
+						}
+						var chain []string
+						for cur, ok := fa.X.(*ssa.FieldAddr); ok; cur, ok = cur.X.(*ssa.FieldAddr) {
+							_, nm := fieldAddrName(cur)
+							chain = append(chain, nm)
+						}
+						viaSync := false
+						for _, nm := range chain {
+							if nm == "syncState" {
+								viaSync = true
+							}
+						}
+						if !viaSync {
+							continue
+						}
+						n++
+						c.Check(rule, fmt.Sprintf("start-block-decision-compares-start-block:%s", fnn), bo.Pos(), len(chain) > 0 && chain[0] == "startBlock",
+							fmt.Sprintf("%s decides about moving the start block by comparing the import's height with syncState.%s.Height instead of syncState.startBlock.Height: the database and the in-memory start block are updated under different conditions", fnn, strings.Join(chain[:1], "")))
+					}
+				}
+			}
+		}
+	}
+	c.Floor(rule, "start-block comparisons in the import functions", n, 3)
+}
+
+// checkImportAddressIDAgreesWithConstructor (sibling agreement): for every address type, the database key an
+// imported public key is stored under (importPublicKey) is shaped by the same steps as the address the
+// constructor builds for that type (newManagedAddressWithoutPrivKey) — hash160 / nested-script hash / taproot
+// output-key tweak. The cache is keyed by the constructed address; if the database key is shaped differently the
+// row is unreachable after a restart although the running manager still finds the address in its cache.
+func checkImportAddressIDAgreesWithConstructor(c *Ctx, rule string) {
+	p := c.P
+	imp := p.Func("waddrmgr", "ScopedKeyManager", "importPublicKey")
+	ctor := p.Func("waddrmgr", "", "newManagedAddressWithoutPrivKey")
+	if imp == nil || ctor == nil {
+		c.Unresolved(rule, "importPublicKey / newManagedAddressWithoutPrivKey")
+		return
+	}
+	// the type-specific shaping steps (the plain hash160 is common to all types and computed outside the switch in one of the two)
+	vocab := map[string]bool{"ComputeTaprootKeyNoScript": true, "ComputeTaprootOutputKey": true, "PayToAddrScript": true}
+	arms := func(fn *ssa.Function) map[string]map[string]bool {
+		out := map[string]map[string]bool{}
+		for _, b := range fn.Blocks {
+			for si, succ := range b.Succs {
+				ef := edgeFactOf(b, si)
+				if ef == nil || ef.Kind != "true" {
+					continue
+				}
+				bo, ok := ef.V.(*ssa.BinOp)
+				if !ok || bo.Op != token.EQL {
+					continue
+				}
+				cst, ok := bo.Y.(*ssa.Const)
+				if !ok {
+					continue
+				}
+				nm, ok := cst.Type().(*types.Named)
+				if !ok || nm.Obj().Name() != "AddressType" {
+					continue
+				}
+				name := strings.TrimPrefix(valueDesc(cst), "waddrmgr.")
+				set := out[name]
+				if set == nil {
+					set = map[string]bool{}
+					out[name] = set
+				}
+				// the arm: blocks dominated by the case body (for `case A, B:` the body has several predecessors,
+				// so take the blocks reachable from it up to the switch's merge: approximated by domination from succ
+				// or, when succ is shared, by the body block itself and what it dominates)
+				for _, bb := range fn.Blocks {
+					if succ.Dominates(bb) {
+						for _, ins := range bb.Instrs {
+							if call, ok := ins.(*ssa.Call); ok && vocab[calleeShort(&call.Call)] {
+								set[calleeShort(&call.Call)] = true
+							}
+						}
+					}
+				}
+			}
+		}
+		return out
+	}
+	ia, ca := arms(imp), arms(ctor)
+	n := 0
+	for t, want := range ca {
+		got, ok := ia[t]
+		if !ok {
+			continue
+		}
+		n++
+		var w, g []string
+		for k := range want {
+			w = append(w, k)
+		}
+		for k := range got {
+			g = append(g, k)
+		}
+		sort.Strings(w)
+		sort.Strings(g)
+		c.Check(rule, "import-address-id-shaped-like-constructed-address:"+t, imp.Pos(), strings.Join(w, ",") == strings.Join(g, ","),
+			fmt.Sprintf("for address type %s importPublicKey shapes the database key with {%s} while the address constructor uses {%s}: the imported address is stored under a key its own address does not map to (found through the cache now, lost after a restart)", t, strings.Join(g, ","), strings.Join(w, ",")))
+	}
+	c.Floor(rule, "address types handled by both importPublicKey and the constructor", n, 4)
+}
+
+// checkNextIndexMirrorIsLoopVariable: the in-memory next index an issuer leaves behind is the variable its
+// derivation loop counted with (after the loop it is one past the last derived child, the same value
+// putChainedAddress persisted as index+1) — not a field of the last derived entry, which is the last USED index:
+// with that, memory ends one below the database and the next request re-issues an address that was just handed out.
+func checkNextIndexMirrorIsLoopVariable(c *Ctx, rule string) {
+	p := c.P
+	n := 0
+	for _, fnn := range []string{"nextAddresses", "extendAddresses"} {
+		top := p.Func("waddrmgr", "ScopedKeyManager", fnn)
+		if top == nil {
+			c.Unresolved(rule, "ScopedKeyManager."+fnn)
+			continue
+		}
+		// the child index handed to the second (index) derivation
+		var deriveAtom string
+		derives := callsNamed(top, "DeriveNonStandard")
+		if len(derives) >= 2 {
+			l := p.linearize(derives[len(derives)-1].Call.Args[len(derives[len(derives)-1].Call.Args)-1], 0)
+			for a := range l.Coef {
+				deriveAtom = a
+			}
+		}
+		if deriveAtom == "" {
+			c.Unresolved(rule, "child-index derivation in "+fnn)
+			continue
+		}
+		for _, fn := range Closures(top) {
+			for _, b := range fn.Blocks {
+				for _, ins := range b.Instrs {
+					st, ok := ins.(*ssa.Store)
+					if !ok {
+						continue
+					}
+					fa, ok := st.Addr.(*ssa.FieldAddr)
+					if !ok {
+						continue
+					}
+					tn, f := fieldAddrName(fa)
+					if tn != "accountInfo" || (f != "nextExternalIndex" && f != "nextInternalIndex") {
+						continue
+					}
+					n++
+					l := p.linearize(st.Val, 0)
+					same := len(l.Coef) == 1 && l.Coef[deriveAtom] == 1 && l.Konst == 0
+					c.Check(rule, fmt.Sprintf("next-index-mirror-is-issuing-loop-variable:%s.%s", fnn, f), st.Pos(), same,
+						fmt.Sprintf("%s sets the in-memory %s to [%s] instead of the variable its derivation loop counted with [%s]: memory is left below the persisted next index and the next request re-issues the last address", fnn, f, l.String(), deriveAtom))
+				}
+			}
+		}
+	}
+	c.Floor(rule, "next-index mirror stores in the issuers", n, 4)
 }
